@@ -22,7 +22,7 @@ SCANNING = "zcash_client_sqlite/src/wallet/scanning.rs"
 # SQL boolean fragment -> Gallina
 # ---------------------------------------------------------------------------------------------
 
-TOK = re.compile(r"\s*(?:(<=|>=|<>|!=|=|<|>|\+|\(|\)|,)|(:[A-Za-z_][A-Za-z0-9_]*)|(\d+)|([A-Za-z_][A-Za-z0-9_]*(?:\.[A-Za-z_][A-Za-z0-9_]*)?)|(@SPENT@))")
+TOK = re.compile(r"\s*(?:(<=|>=|<>|!=|==|=|<|>|\+|-|\(|\)|,)|(:[A-Za-z_][A-Za-z0-9_]*)|(\d+)|([A-Za-z_][A-Za-z0-9_]*(?:\.[A-Za-z_][A-Za-z0-9_]*)?)|(@SPENT@))")
 
 KEYWORDS = {"AND", "OR", "NOT", "IS", "NULL", "IN", "IFNULL", "RARRAY"}
 
@@ -40,15 +40,23 @@ COLS = {
     "scan_state.max_priority": "C_scan_max_priority",
     "stx.mined_height": "C_tx_mined", "stx.expiry_height": "C_tx_expiry",
     "stx.min_observed_height": "C_tx_minobs",
+    # transparent outputs
+    "u.id": "C_rn_id", "u.value_zat": "C_u_value", "u.max_observed_unspent_height": "C_u_maxobs",
+    "u.lock_expiry_height": "C_rn_lock_expiry", "u.lock_owner": "C_rn_lock_owner",
+    "addresses.cached_transparent_receiver_address": "C_addr", "addresses.key_scope": "C_addr_key_scope",
+    "addresses.imported_transparent_receiver_pubkey": "C_addr_imp_pubkey",
+    "addresses.imported_transparent_receiver_script": "C_addr_imp_script",
+    "t.tx_index": "C_t_txindex", "@NOWALLETINPUTS@": "C_u_no_wallet_inputs",
 }
 PARAMS = {
     ":account_uuid": "P_account_uuid", ":min_value": "P_min_value", ":anchor_height": "P_anchor_height",
     ":tip_unscanned": "P_tip_unscanned", ":scanned_priority": "P_scanned_priority",
     ":target_height": "P_target_height", ":target_value": "P_target_value",
     ":chain_tip": "P_chain_tip", ":owner": "P_owner",
+    ":min_confirmations": "P_min_confirmations", ":coinbase_filter": "P_coinbase_filter",
 }
-LPARAMS = {":exclude": "L_exclude", ":overridable_owners": "L_overridable_owners"}
-CMPS = {"=": "CEq", "<": "CLt", "<=": "CLe", ">": "CGt", ">=": "CGe"}
+LPARAMS = {":exclude": "L_exclude", ":overridable_owners": "L_overridable_owners", ":addresses": "L_addresses"}
+CMPS = {"=": "CEq", "==": "CEq", "!=": "CNe", "<>": "CNe", "<": "CLt", "<=": "CLe", ">": "CGt", ">=": "CGe"}
 
 
 def tokenize(sql, where):
@@ -56,10 +64,22 @@ def tokenize(sql, where):
     toks, pos = [], 0
     sql = sql.strip()
     while pos < len(sql):
+        if sql.startswith("@NOWALLETINPUTS@", pos):
+            toks.append(("id", "@NOWALLETINPUTS@"))
+            pos += len("@NOWALLETINPUTS@")
+            while pos < len(sql) and sql[pos].isspace():
+                pos += 1
+            continue
         m = TOK.match(sql, pos)
         if not m or m.end() == pos:
             raise SrcgenError("%s: cannot tokenize SQL at %r" % (where, sql[pos:pos + 40]))
         op, par, num, ident, spent = m.groups()
+        if not (op or par or num or ident or spent) and sql.startswith("@NOWALLETINPUTS@", pos):
+            toks.append(("id", "@NOWALLETINPUTS@"))
+            pos += len("@NOWALLETINPUTS@")
+            while pos < len(sql) and sql[pos].isspace():
+                pos += 1
+            continue
         if op:
             toks.append(("op", op))
         elif par:
@@ -157,16 +177,16 @@ class Parser:
             self.take("op", "(")
             self.take("spent")
             self.take("op", ")")
-            if not neg or a != "(ECol C_rn_id)":
+            if not neg or a != "(ECol C_rn_id)":  # rn.id / u.id
                 raise SrcgenError("%s: the spent-notes subquery must be used as `rn.id NOT IN (...)`" % self.where)
             return "ENotSpent"
         return a
 
     def p_add(self):
         e = self.p_atom()
-        while self.peek() == ("op", "+"):
-            self.take()
-            e = "(EAdd %s %s)" % (e, self.p_atom())
+        while self.peek() in (("op", "+"), ("op", "-")):
+            op = self.take()[1]
+            e = "(%s %s %s)" % ("EAdd" if op == "+" else "ESub", e, self.p_atom())
         return e
 
     def p_atom(self):
@@ -192,6 +212,9 @@ class Parser:
         if tk[0] == "num":
             self.take()
             return "(ELit %s)" % tk[1]
+        if tk == ("op", "-") and self.peek(1)[0] == "num":
+            self.take()
+            return "(ELit (-%s))" % self.take()[1]
         if tk[0] == "id":
             self.take()
             if tk[1] not in COLS:
@@ -392,6 +415,74 @@ def gen_sql():
     unspent_pol = where2_with(txt)
     unspent_unf = where2_with("1")
 
+    # --- transparent outputs: spendable_transparent_outputs_query ----------------------------------
+    TR = "zcash_client_sqlite/src/wallet/transparent.rs"
+    tr = srcgen.read(TR)
+    enc = srcgen.read("zcash_client_sqlite/src/wallet/encoding.rs")
+    def scope_code(name):
+        mm = re.search(r"KeyScope::%s\s*=>\s*(-?\d+)i64" % name, enc)
+        if not mm:
+            raise SrcgenError("KeyScope::%s encoding not found" % name)
+        return int(mm.group(1))
+    eph_scope, foreign_scope = scope_code("Ephemeral"), scope_code("Foreign")
+    maturity = srcgen.int_const("components/zcash_protocol/src/consensus.rs", "COINBASE_MATURITY_BLOCKS")
+    max_block = srcgen.int_const("components/zcash_protocol/src/constants.rs", "MAX_BLOCK_BYTES")
+    p2pkh = srcgen.int_const(ZIP317, "P2PKH_STANDARD_INPUT_SIZE")
+    pct = srcgen.int_const("zcash_client_backend/src/data_api/wallet/input_selection.rs", "DEFAULT_SHIELDING_BLOCK_SPACE_PERCENT")
+
+    def raw_format(fn):
+        bb = fn_body(tr, fn, TR)
+        mm = re.search(r'format!\(\s*r#"(.*?)"#', bb, flags=re.S)
+        if not mm:
+            raise SrcgenError("%s: format!(r#\"..\"#) not found" % fn)
+        return mm.group(1), bb
+
+    f_minconf, _ = raw_format("tx_unexpired_condition_minconf_0")
+    f_minconf = f_minconf.replace("{tx}", "t")
+    f_spent, bb = raw_format("spent_utxos_clause")
+    if norm(f_spent) != ("SELECT txo_spends.transparent_received_output_id FROM transparent_received_output_spends txo_spends "
+                         "JOIN transactions stx ON stx.id_tx = txo_spends.transaction_id WHERE {}") or \
+       'super::common::tx_unexpired_condition("stx")' not in bb:
+        raise SrcgenError("spent_utxos_clause: relational shape changed")
+    f_eph, _ = raw_format("excluding_wallet_internal_ephemeral_outputs")
+    sub = re.search(r"\{tx\}\.id_tx NOT IN \(\s*SELECT transaction_id\s+FROM v_received_output_spends\s+WHERE v_received_output_spends\.account_id = \{accounts\}\.id\s*\)", f_eph)
+    if not sub:
+        raise SrcgenError("excluding_wallet_internal_ephemeral_outputs: wallet-inputs subquery changed")
+    f_eph = f_eph.replace(sub.group(0), "@NOWALLETINPUTS@ = 1")
+    f_eph = (f_eph.replace("{addresses}", "addresses").replace("{ephemeral_key_scope}", str(eph_scope))
+             .replace("{transparent_received_outputs}", "u").replace("{tx}", "t"))
+    f_cb, _ = raw_format("excluding_immature_coinbase_outputs")
+    f_cb = f_cb.replace("{tx}", "t").replace("{COINBASE_MATURITY_BLOCKS}", str(maturity))
+    bq = fn_body(tr, "spendable_transparent_outputs_query", TR)
+    mm = re.search(r"WHERE \{address_predicate_sql\}(.*?)ORDER BY \{order_by_sql\}\",", bq, flags=re.S)
+    if not mm:
+        raise SrcgenError("spendable_transparent_outputs_query: WHERE not found")
+    wq = mm.group(1)
+    if wq.count("({})") != 4 or "({lock_eligible_sql})" not in wq:
+        raise SrcgenError("spendable_transparent_outputs_query: placeholders changed")
+    if not re.search(r'tx_unexpired_condition_minconf_0\("t"\),\s*spent_utxos_clause\(\),\s*excluding_wallet_internal_ephemeral_outputs\("u", "addresses", "t", "accounts"\),\s*excluding_immature_coinbase_outputs\("t"\),\s*foreign_scope = KeyScope::Foreign\.encode\(\)', bq):
+        raise SrcgenError("spendable_transparent_outputs_query: positional arguments changed")
+    for need in ["FROM transparent_received_outputs u", "JOIN transactions t ON t.id_tx = u.transaction_id",
+                 "JOIN accounts ON accounts.id = u.account_id", "JOIN addresses ON addresses.id = u.address_id"]:
+        if need not in norm(bq):
+            raise SrcgenError("spendable_transparent_outputs_query: expected %r" % need)
+    bfa = fn_body(tr, "get_spendable_transparent_outputs_for_addresses", TR)
+    if '"addresses.cached_transparent_receiver_address IN rarray(:addresses)"' not in bfa or \
+       '&output_eligible_condition(lock_filter, "u")' not in bfa:
+        raise SrcgenError("get_spendable_transparent_outputs_for_addresses: predicate arguments changed")
+    if not re.search(r"allow_zero_conf_shielding\(\)\s*\{\s*0u32\s*\}\s*else\s*\{\s*u32::from\(confirmations_policy\.untrusted\(\)\)", bfa):
+        raise SrcgenError("get_spendable_transparent_outputs_for_addresses: min_confirmations rule changed")
+
+    def utxo_where(lock_sql):
+        parts = wq.split("({})")
+        w = ("addresses.cached_transparent_receiver_address IN rarray(:addresses)" + parts[0] + "(" + f_minconf + ")" + parts[1]
+             + "(@SPENT@)" + parts[2] + "(" + f_eph + ")" + parts[3] + "(" + f_cb + ")" + parts[4])
+        w = w.replace("({lock_eligible_sql})", "(" + lock_sql + ")").replace("{foreign_scope}", str(foreign_scope))
+        return parse_sql(w, "spendable_transparent_outputs_query WHERE")
+
+    utxo_pol = utxo_where(txt.replace("rn.", "u."))
+    utxo_unf = utxo_where("1")
+
     out = ["From Coq Require Import ZArith.", "From V.C08 Require Import Sql.", "Local Open Scope Z_scope.", ""]
     out.append("Definition DEFAULT_TX_EXPIRY_DELTA : Z := %d." % delta)
     out.append("Definition MARGINAL_FEE : Z := %d." % marginal)
@@ -413,6 +504,13 @@ def gen_sql():
     out.append("Definition below_target_cmp : cmp := %s." % sofar_cmp(below, "below-target"))
     out.append("Definition crossing_cmp : cmp := %s." % sofar_cmp(cross, "crossing"))
     out.append("Definition single_covering_cmp : cmp := %s." % single_cmp)
+    out.append("(* WHERE of spendable_transparent_outputs_query as used by get_spendable_transparent_outputs_for_addresses *)")
+    out.append("Definition utxo_where_policy : expr :=\n  %s." % utxo_pol)
+    out.append("Definition utxo_where_unfiltered : expr :=\n  %s." % utxo_unf)
+    out.append("Definition EPHEMERAL_KEY_SCOPE : Z := %d." % eph_scope)
+    out.append("Definition COINBASE_MATURITY_BLOCKS : Z := %d." % maturity)
+    out.append("(* shielding_max_inputs(DEFAULT_SHIELDING_BLOCK_SPACE_PERCENT) *)")
+    out.append("Definition SHIELDING_MAX_INPUTS : Z := %d." % ((max_block * pct // 100) // p2pkh))
     srcgen.write_gen("C08SqlPred", "\n".join(out) + "\n")
 
 
@@ -422,10 +520,10 @@ class C08(Config):
     corr_targets = ["C08/Corr.vo", "C08/Wf.vo"]
     audit_dirs = ["Lib", "Gen", "C08"]
     header = ("From V.Lib Require Import Base.\n"
-              "From V.C08 Require Import Sql Model Spec Corr Wf.\n"
+              "From V.C08 Require Import Sql Model ModelT Spec Corr Wf.\n"
               "Local Open Scope Z_scope.")
     bin = "c08"
-    n_tags = 24
+    n_tags = 36
     classes = {}
     shard_size = 120
     rule = ("wallet histories on the real SQLite backend, half of them on a local network with NU6.3/Ironwood active and a 12-block ZIP 318 grid (receipts into 2 accounts x 3 shielded pools, canonical-denomination payments to Orchard receivers, external spends, "
@@ -445,7 +543,7 @@ class C08(Config):
         "canonical-crossing attempt: the ZIP 318 grid, NU6.3 activation height, anchor_computable(Orchard, boundary), the data source's anchor under the bucketed policy and the canonical fee are inputs reported by the wallet; theorems assume that anchor <= the boundary",
     ]
     partial_clauses = [
-        "transparent inputs (propose_shielding, gather_transparent) and ZIP 320 multi-step proposals are not modelled",
+        "transparent inputs are modelled for get_spendable_transparent_outputs_for_addresses and propose_shielding; gather_transparent inside propose_transfer (SpendPolicy::with_transparent, select_spendable_transparent_outputs), propose_shielding_coinbase and ZIP 320 multi-step proposals are not modelled",
         "propose_send_max_transfer is covered only through select_spendable_notes(AllFunds) (select_unspent_notes)",
         "get_anchor_height / checkpoint tables are not modelled: the anchor is an input (the value the wallet reports)",
     ]
